@@ -250,9 +250,39 @@ func generate(e *vh.Env) []scenario {
 			}
 			ss = append(ss, lSend(0, p))
 		}
-		ph := [][]label{{{kind: lArrive, i: 0}}, {lb(aPeerPause, 0)}, cat(ss, []label{lb(aLocalClose, 0)}), {lb(aPeerRead, 0)}, {lSend(0, []byte{1})}}
+		ph := [][]label{{{kind: lArrive, i: 0}}, {lb(aPeerPause, 0)}, cat(ss, []label{lb(aLocalClose, 0)})}
+		if n%2 == 1 {
+			ph = append(ph, []label{lb(aPeerByte, 0)}) // one more request from the peer while the reply is still queued
+		}
+		ph = append(ph, []label{lb(aPeerRead, 0)}, []label{lSend(0, []byte{1})})
 		out = append(out, scenario{class: "accept-flush", maxc: 2, sendAmp: 32 << 10, rawMgr: true, lateRead: true, strategy: staticStrategy(ph),
 			decoysAfter: decoyList(r, 2, n%2 == 0)})
+	}
+	// 1h. the peer sends one more byte AFTER the local Close and BEFORE the queue has drained: a peer that does not read
+	//     yet keeps the send loop blocked in its write with 64 KiB and more still queued; the read handler consumes
+	//     the byte (the session is still alive: its reply is not out yet); then the peer reads and must get everything.
+	//     Deterministic member of every run: net.Pipe, loopback TCP behind the wrapper, and the raw accept path below.
+	for tr := 0; tr < 2; tr++ {
+		for rep := 0; rep < 2; rep++ {
+			samp, k, syms := 8<<10, 6+r.Intn(4), 2
+			if tr == trTcp {
+				samp, k, syms = 32<<10, 80+r.Intn(20), 9 // about 25 MiB: the kernel's buffers cannot absorb it
+			}
+			var ss []label
+			for j := 0; j < k; j++ {
+				p := make([]byte, syms+r.Intn(2))
+				for x := range p {
+					p[x] = byte(1 + (j*5+x)%250)
+				}
+				ss = append(ss, lSend(0, p))
+			}
+			ph := [][]label{{lStartL(0, tr, false)}, cat(ss, []label{lb(aLocalClose, 0)}), {lb(aPeerByte, 0)}}
+			if rep == 1 {
+				ph = append(ph, []label{lb(aPeerByte, 0)})
+			}
+			ph = append(ph, []label{lb(aPeerRead, 0)}, []label{lSend(0, []byte{1})})
+			out = append(out, scenario{class: "close-then-peer-byte/" + strings.ToLower(trNames[tr]), maxc: -1, sendAmp: samp, strategy: staticStrategy(ph)})
+		}
 	}
 	// 2. every order of two terminating events: one after the other, and racing in one burst
 	for tr := 0; tr < 2; tr++ {
